@@ -250,6 +250,12 @@ class Problem(  # type: ignore[misc]
 
     def clone(self):
         new_p = Problem(self._name, self._env)
+        self._clone_to(new_p)
+        return new_p
+
+    def _clone_to(self, new_p: "Problem"):  # type: ignore[override]
+        """Copies into `new_p` all the data defined by the `Problem` class; the `clone` of
+        the subclasses uses it, so that a field added here is cloned by all of them."""
         UserTypesSetMixin._clone_to(self, new_p)
         ObjectsSetMixin._clone_to(self, new_p)
         FluentsSetMixin._clone_to(self, new_p)
@@ -274,7 +280,6 @@ class Problem(  # type: ignore[misc]
 
         # last as it requires actions to be cloned already
         MetricsMixin._clone_to(self, new_p, new_actions=new_p)
-        return new_p
 
     def has_name(self, name: str) -> bool:
         """
